@@ -181,14 +181,46 @@ theorem proxies_mirror_control_stream (cs : List Ctl) (pid : Nat) :
   simp only [advertised, beq_iff_eq]
   exact this
 
-/-- (groups) A proxy is a member of group `g` exactly when the last word of the control
-stream about it in `g` was a `PgJoin` (a `Terminate` or the session closing removes it from
-every group). -/
-theorem groups_mirror_control_stream (cs : List Ctl) (g : String) (pid : Nat) :
-    (g, pid) ∈ (Mirror.run {} cs).members ↔ announced g pid cs = true := by
-  have := mirror_run_members {} cs g pid none (by simp)
+/-- (groups) A proxy is a member of the group `k = (scope, group)` exactly when the last word
+of the control stream about it in that scope AND group was a `PgJoin` (a `Terminate` or the
+session closing removes it from every group of every scope). -/
+theorem groups_mirror_control_stream (cs : List Ctl) (k : GKey) (pid : Nat) :
+    (k, pid) ∈ (Mirror.run {} cs).members ↔ announced k pid cs = true := by
+  have := mirror_run_members {} cs k pid none (by simp)
   simp only [announced, beq_iff_eq]
   exact this
+
+/-- (remote membership = image of the local one, per scope AND group) Let `L0` be the local
+process-group memberships when the session comes up, `keys` what `which_scopes_and_groups()`
+returns (at least every key that has a member), and `evs` ANY later sequence of local joins,
+leaves and actor exits. After the peer has processed the initial scan followed by the forwarded
+notifications in order, the remote reference of `pid` is a member of `(scope, group)` exactly
+when the original is — for every scope, every group, every pid, every history. -/
+theorem remote_membership_is_image (L0 : Memb) (keys : List GKey) (hk : ∀ e ∈ L0, e.1 ∈ keys)
+    (evs : List PgEv) (k : GKey) (pid : Nat) :
+    (k, pid) ∈ (Mirror.run {} (syncStream keys L0 evs)).members ↔ (k, pid) ∈ evs.foldl Memb.apply L0 := by
+  rw [mirror_run_members {} _ k pid none (by simp), syncStream, List.foldl_append]
+  refine (apply_notes L0 evs k pid _ ?_).symm
+  rw [initialSync_verdict]
+  constructor
+  · intro h; exact Or.inr ⟨hk _ h, h⟩
+  · rintro (h | ⟨_, h⟩)
+    · exact absurd h (by simp)
+    · exact h
+
+/-- the scan over `which_scopes_and_groups()` itself covers every member -/
+theorem remote_membership_is_image_keys (L0 : Memb) (evs : List PgEv) (k : GKey) (pid : Nat) :
+    (k, pid) ∈ (Mirror.run {} (syncStream L0.keys L0 evs)).members ↔ (k, pid) ∈ evs.foldl Memb.apply L0 := by
+  refine remote_membership_is_image L0 L0.keys ?_ evs k pid
+  intro e he
+  simp only [Memb.keys, List.mem_eraseDups, List.mem_map]
+  exact ⟨e, he, rfl⟩
+
+/-- (ready) in particular at the moment the peer has seen the initial scan: nothing missing,
+nothing in a wrong scope -/
+theorem remote_membership_at_ready (L0 : Memb) (k : GKey) (pid : Nat) :
+    (k, pid) ∈ (Mirror.run {} (initialSync L0.keys L0)).members ↔ (k, pid) ∈ L0 := by
+  simpa [syncStream] using remote_membership_is_image_keys L0 [] k pid
 
 /-- (close) when the session stops no proxy and no membership is left, whatever came before. -/
 theorem close_removes_everything (cs : List Ctl) :
@@ -210,9 +242,25 @@ example : demo.recvd = demo.sent ∧ demo.sent.length = 3 := by decide
 example : demo.delivered = [(0, 110)] ∧ demo.answered = [(1, 111), (0, 110)] := by decide
 example : demo.quiet = true ∧ demo.px.tag = 2 ∧ demo.px.pending = [] := by decide
 
-example : (Mirror.run {} [.spawn [1, 2], .pgJoin "g" [2, 3], .terminate [1], .pgLeave "g" [3]]).proxies = [2, 3] ∧
-    (Mirror.run {} [.spawn [1, 2], .pgJoin "g" [2, 3], .terminate [1], .pgLeave "g" [3]]).members = [("g", 2)] := by
+example : (Mirror.run {} [.spawn [1, 2], .pgJoin "" "g" [2, 3], .terminate [1], .pgLeave "" "g" [3]]).proxies = [2, 3] ∧
+    (Mirror.run {} [.spawn [1, 2], .pgJoin "" "g" [2, 3], .terminate [1], .pgLeave "" "g" [3]]).members = [(("", "g"), 2)] := by
   decide
+
+/-- the same group name in the default scope and in a named scope: two different groups.
+Actor 1 is in `g` of the default scope, actor 2 in `g` of scope `s`; later 1 joins `s/g` too and
+2 exits. -/
+def demoL0 : Memb := [(("", "g"), 1), (("s", "g"), 2)]
+example : (Mirror.run {} (initialSync demoL0.keys demoL0)).members = demoL0 := by decide
+example : (Mirror.run {} (syncStream demoL0.keys demoL0 [.join "s" "g" [1], .exit 2])).members =
+    [(("", "g"), 1), (("s", "g"), 1)] := by decide
+
+/-- what the theorem excludes (seeded change C20-5): looking the members of EVERY key up in the
+default scope announces actor 1 in `s/g` and never announces actor 2 -/
+example :
+    let wrong : List Ctl := demoL0.keys.filterMap fun k =>
+      let ms := localMembers demoL0 ("", k.2)
+      if ms.isEmpty then none else some (.pgJoin k.1 k.2 ms)
+    (Mirror.run {} wrong).members = [(("", "g"), 1), (("s", "g"), 1)] := by decide
 
 /-- cleanup with a cursor: 20 pending calls, the first 18 abandoned: one pass removes 16 -/
 example :
@@ -233,6 +281,9 @@ example :
 #print axioms C20.ok_model
 #print axioms C20.proxies_mirror_control_stream
 #print axioms C20.groups_mirror_control_stream
+#print axioms C20.remote_membership_is_image
+#print axioms C20.remote_membership_is_image_keys
+#print axioms C20.remote_membership_at_ready
 #print axioms C20.close_removes_everything
 
 end C20
